@@ -92,4 +92,59 @@ MUTANTS = [
     M("c11-ctcp-default-split", ["C11"], CMD, '''func (conn *Conn) CtcpReply(t, ctcp string, arg ...string) {
 	for _, s := range splitMessage(strings.Join(arg, " "), conn.cfg.SplitLen) {''', '''func (conn *Conn) CtcpReply(t, ctcp string, arg ...string) {
 	for _, s := range splitMessage(strings.Join(arg, " "), defaultSplit) {'''),
+    # ---- C12
+    M("c12-renick-no-lookup-rekey", ["C12"], TR, """		delete(ch.lookup, old)
+		ch.lookup[neu] = nk""", """		_ = ch"""),
+    M("c12-delchannel-no-me-test", ["C12"], TR, "if len(nk.chans) == 0 && nk != st.me {", "if len(nk.chans) == 0 {", expect="control", note="delNick itself refuses to delete me"),
+    M("c12-dissociate-no-gc", ["C12"], TR, """		nk.delChannel(ch)
+		if len(nk.chans) == 0 {
+			// We're no longer in any channels with this nick.
+			st.delNick(nk)
+		}
+	}
+}""", """		nk.delChannel(ch)
+	}
+}"""),
+    M("c12-delnick-allows-me", ["C12"], TR, """		if nk == st.me {
+			logging.Warn("Tracker.DelNick(): won't delete myself.")
+			return nil
+		}
+		st.delNick(nk)""", """		st.delNick(nk)"""),
+    M("c12-wipe-skips-multi", ["C12"], TR, """	for _, ch := range st.chans {
+		st.delChannel(ch)
+	}""", """	for _, ch := range st.chans {
+		if len(st.chans) > 2 && len(ch.nicks) == 0 {
+			continue
+		}
+		st.delChannel(ch)
+	}"""),
+    M("c12-delnick-keeps-chan-entry", ["C12"], TR, """		nk.delChannel(ch)
+		ch.delNick(nk)
+		if len(ch.nicks) == 0 {""", """		nk.delChannel(ch)
+		if len(ch.nicks) == 0 {"""),
+    M("c12-minus-l-consumes", ["C12"], CH, """			} else if !modeop {
+				ch.modes.Limit = 0
+			}""", """			} else if !modeop {
+				ch.modes.Limit = 0
+				if len(modeargs) != 0 {
+					modeargs = modeargs[1:]
+				}
+			}"""),
+    M("c12-renick-drops-privs-2chans", ["C12"], TR, """	for ch, _ := range nk.chans {
+		// We also need to update the lookup maps of all the channels""", """	for ch, cp := range nk.chans {
+		if len(nk.chans) > 1 && cp.Voice {
+			cp.Voice = false
+		}
+		// We also need to update the lookup maps of all the channels"""),
+    M("c12-newnick-allows-empty-after-wipe", ["C12"], TR, """	if n == "" {
+		logging.Warn("Tracker.NewNick(): Not tracking empty nick.")
+		return nil
+	}""", """	if n == "" && len(st.chans) == 0 {
+		logging.Warn("Tracker.NewNick(): Not tracking empty nick.")
+		return nil
+	}"""),
+    M("c12-topic-returns-stale", ["C12"], TR, """	ch.topic = topic
+	return ch.Channel()""", """	r := ch.Channel()
+	ch.topic = topic
+	return r"""),
 ]
